@@ -122,9 +122,11 @@ def translation_total(ctx):
 def debug_first(ctx):
     u, cfg, h = top_handler(ctx)
     body = h.ast.body
-    first = body[0] if body else None
+    first = next((n for n in body if isinstance(n, (ast.If, ast.Try, ast.Raise, ast.Assign, ast.Expr))
+                  and not (isinstance(n, ast.Assign) and isinstance(n.value, ast.Constant))), None)
     ok = isinstance(first, ast.If) and isinstance(first.test, ast.Name) and len(first.body) == 1 \
-        and isinstance(first.body[0], ast.Raise) and first.body[0].exc is None and not first.orelse
+        and isinstance(first.body[0], ast.Raise) and (first.body[0].exc is None or is_name(first.body[0].exc, h.ast.name)) \
+        and not first.orelse
     ctx.ob(ok, u, 'the debug flag is tested first and re-raises the original object: %s'
            % (norm(first) if first is not None else None), node=first)
     if ok:
@@ -439,7 +441,7 @@ def raise_discipline(ctx):
                and c.func.attr == '_finalize']
         ok = len(fin) == 1 and is_name(fin[0].func.value, errvar)
         ctx.ob(ok, u, 'the error to raise is finalised with the failing frame: %s' % [norm(c) for c in fin])
-        ok = len(t.orelse) == 1 and isinstance(t.orelse[0], ast.Raise) and t.orelse[0].exc is None
+        ok = len(t.orelse) == 1 and isinstance(t.orelse[0], ast.Raise) and (t.orelse[0].exc is None or is_name(t.orelse[0].exc, evar))
         ctx.ob(ok, u, 'when wrapping failed the original is re-raised: %s' % [norm(s) for s in t.orelse])
     # after the try: `if err: raise err`
     rs = [n for n in u.own_nodes() if isinstance(n, ast.Raise) and not in_handler_of(n) and is_name(n.exc, errvar)]
